@@ -26,7 +26,7 @@ MENU_SELF = [(), ("shift",), ("weak",), ("plain",)]
 
 def plan(tier, seed, scale):
     q = tier == "quick"
-    return {"n_cases": 1, "n3_sample": int((24000 if q else 400000) * scale), "big_sample": int((3000 if q else 60000) * scale),
+    return {"n_cases": 1, "n3_sample": int((24000 if q else 400000) * scale), "big_sample": int((3000 if q else 400000) * scale),
             "n3_exhaustive": not q, "timeout_s": 900 if q else 10800}
 
 
